@@ -292,9 +292,13 @@ class _Renamed:
 def r01_cde(prog: Program, chk: Check) -> None:
     from . import c02
 
-    ad = _Renamed(chk, {"R02.g": "R01.c", "R02.h": "R01.d", "R02.i": "R01.e"})
+    ad = _Renamed(chk, {"R02.g": "R01.c", "R02.h": "R01.d", "R02.i": "R01.e", "R02.k": "R01.g", "R02.l": "R01.h"})
     c02.r02g(prog, ad)  # type: ignore[arg-type]
     c02.r02hi(prog, ad)  # type: ignore[arg-type]
+    # an expression inferred as Never is never reached: the narrowing models decide it for the
+    # predicates and constraint arms over the finite universe
+    c02.r02k(prog, ad)  # type: ignore[arg-type]
+    c02.r02l(prog, ad)  # type: ignore[arg-type]
 
 
 def run(prog: Program, chk: Check) -> None:
